@@ -7,7 +7,7 @@ from harness import core
 from harness.core import Outcome
 
 ID = "C12"
-LEAN_TARGETS = ["BeyondVerif.Props.C12", "BeyondVerif.Witness.C12"]
+LEAN_TARGETS = ["BeyondVerif.Props.C12", "BeyondVerif.Props.C12Lines", "BeyondVerif.Props.C12Orb", "BeyondVerif.Props.C12Float", "BeyondVerif.Witness.C12"]
 THEOREMS = [
     "BeyondVerif.C12.checksum_detects_digit_error",
     "BeyondVerif.C12.valid_iff",
@@ -25,55 +25,123 @@ THEOREMS = [
     "BeyondVerif.C12.from_string_yields_valid_entries",
     "BeyondVerif.C12.from_string_framed_exact",
     "BeyondVerif.C12.reference_tles_roundtrip",
+    "BeyondVerif.C12.from_string_windows",
+    "BeyondVerif.C12.from_string_no_memory",
+    "BeyondVerif.C12.rejected_entry_leaves_no_trace",
+    "BeyondVerif.C12.valid_entry_yielded_anywhere",
+    "BeyondVerif.C12.orbit_reads_exact",
+    "BeyondVerif.C12.epoch_from_utc_date",
+    "BeyondVerif.C12.accepted_writes_69_columns",
+    "BeyondVerif.C12.accepted_norad_fits",
+    "BeyondVerif.C12.norad_int_accepted_only",
+    "BeyondVerif.C12.norad_int_accepted",
+    "BeyondVerif.C12.read_reflects_current_values",
+    "BeyondVerif.C12.history_independent_of_source",
+    "BeyondVerif.C12.reads_do_not_change_the_orbit",
+    "BeyondVerif.C12.format_within_half_unit",
+    "BeyondVerif.C12.angle_grid_range",
+    "BeyondVerif.C12.drag_exponent_found",
+    "BeyondVerif.C12.drag_five_digits",
+    "BeyondVerif.C12.drag_normal_form",
+    "BeyondVerif.C12.epoch_century",
+    "BeyondVerif.C12.epoch_within_half_unit",
+    "BeyondVerif.C12.wide_roundtrip",
+    "BeyondVerif.C12.second_generation_fixed",
+    "BeyondVerif.C12.offgrid_idempotent_from_second_generation",
+    "BeyondVerif.C12.quantize_wide",
+    "BeyondVerif.C12.offgrid_written_valid",
+    "BeyondVerif.C12.offgrid_three_generations",
     "BeyondVerif.C12W.leading_blank_now_harmless",
     "BeyondVerif.C12W.from_string_keeps_valid_entry",
     "BeyondVerif.C12W.ecc_one_refused",
     "BeyondVerif.C12W.missing_line_is_parse_error",
+    "BeyondVerif.C12W.blank_drag_field_ends_generator",
+    "BeyondVerif.C12W.alpha5_refused",
+    "BeyondVerif.C12W.negative_norad",
 ]
-LEVEL_TEXT = ("Lean theorems over a List Char / Int model of beyond/io/tle.py whose column slices and writer layout are regenerated from the Python AST on every "
-              "run (the hand-modelled functions are compared statement by statement with the source the model was written from). For EVERY record inside the "
-              "ranges of the format (5-digit catalogue number, empty/full designator, signed/zero drag and ndot terms with any one-digit exponent, e in [0,1), "
-              "angles in [0,360), n < 100, element numbers 0-9999, revolution numbers 0-99999, every day of 1957-2056, with or without name line): the written "
-              "lines have 69 characters, correct checksums and pass _check_validity (written_lines_valid); from_orbit succeeds, shows exactly those lines and "
-              "reads back to the same record field for field (parse_write_id); parse -> orbit -> write reproduces the identical text, name included "
-              "(write_parse_id); _float/_unfloat are inverse on every (sign, 5-digit mantissa, exponent) triple; the epoch is read as exactly 864 us per 1e-8 day. "
-              "For EVERY line the modulo-10 checksum changes under every single-digit substitution; _check_validity accepts exactly the texts with >= 2 lines, "
-              "correct line numbers and 69-character lines with matching check digit (valid_iff), so wrong length, line number, line count and every single-digit "
-              "corruption are rejected; from_string yields exactly the accepted entries of every text whose entries are intact or corrupted in digits, length or "
-              "one line number. Exact differential correspondence of the model with Tle, Tle.from_orbit, Tle.from_string, _float, _unfloat.")
-LEVEL_NOTE = ("the model replaces decimal<->double conversion and the float prelude of from_orbit by exact decimal arithmetic (assumption, checked by the exact "
-              "correspondence on every generated case and by the oracle on off-grid floats); the hand-written model is tied to the code by AST comparison + correspondence; "
-              "Lean kernel + propext/Classical.choice/Quot.sound")
-TECHNIQUE = "Lean 4 proofs over a List Char / Int model of tle.py whose column table and writer layout are regenerated from the Python AST; exact model/implementation correspondence"
+LEVEL_TEXT = ("Lean theorems over a List Char / Int / exact-rational model of beyond/io/tle.py whose column slices, writer layout, uses of the `orbit` argument and UTC date "
+              "expression are regenerated from the Python AST on every run (the hand-modelled functions are compared statement by statement with the source the model was "
+              "written from). RECORDS OF PRINTED UNITS, for EVERY record inside the ranges of the format (5-digit catalogue number, empty/full designator, signed/zero drag "
+              "and ndot terms with any one-digit exponent, e in [0,1), angles in [0,360), n < 100, element numbers 0-9999, revolution numbers 0-99999, every day of 1957-2056, "
+              "with or without name line): the written lines have 69 characters, correct checksums and pass _check_validity (written_lines_valid, also for the three values a "
+              "rounding carry reaches); from_orbit succeeds, shows exactly those lines and reads back to the same record field for field (parse_write_id); parse -> orbit -> "
+              "write reproduces the identical text, name included (write_parse_id); _float/_unfloat are inverse on every (sign, 5-digit mantissa, exponent) triple. "
+              "OFF-GRID ORBITS (every number handed to str.format is an arbitrary double, modelled by its exact rational value; CPython's correctly rounded formatting = "
+              "half-even on that value): every fixed-point field is the grid value nearest to the double (format_within_half_unit: |printed - x| <= half a printed unit), "
+              "the five digits and the exponent of a drag term are found and nearest for every double between 1e-400 and 1e400 (drag_exponent_found, drag_five_digits, "
+              "drag_normal_form), the epoch of EVERY instant of 1957-2056 is written with the right two-digit year (pivot 57, leap years through CPython's ord2ymd) and is "
+              "read back at most 432 us away, in the same year (epoch_century, epoch_within_half_unit); every orbit of the writer's domain yields two 69-column lines "
+              "(quantize_wide, offgrid_written_valid); what is written is read back as itself up to the normalisation of the three carries 360.0000 / day N+1.00000000 / "
+              "00000-9 (wide_roundtrip), and from the SECOND generation on parse -> write is the identity, character for character "
+              "(second_generation_fixed, offgrid_idempotent_from_second_generation, offgrid_three_generations). THE ORBIT SIDE: for every catalogue-number text and every "
+              "record whatsoever, an accepted record was written on exactly 69 columns, its catalogue number has at most five characters and is int() of its columns; "
+              "non-negative integers are accepted exactly below 100000, 0 included (accepted_writes_69_columns, accepted_norad_fits, norad_int_accepted_only, "
+              "norad_int_accepted); Tle.from_orbit reads of its argument exactly name/norad_id/cospar_id behind hasattr, a converted copy, the date converted to UTC, the "
+              "six elements, the drag terms and the two counters (orbit_reads_exact, epoch_from_utc_date over the regenerated list), so that after ANY history of in-place "
+              "modifications, copies, re-reads and reads a read shows the current values and never the Tle the orbit carries (read_reflects_current_values, "
+              "history_independent_of_source, reads_do_not_change_the_orbit). VALIDATION: for EVERY line the modulo-10 checksum changes under every single-digit "
+              "substitution; _check_validity accepts exactly the texts with >= 2 lines, correct line numbers and 69-character lines with matching check digit (valid_iff), so "
+              "wrong length, line number, line count and every single-digit corruption are rejected. MULTI-TLE TEXTS: for EVERY list of lines whatsoever (valid and rejected "
+              "entries, name lines, blanks, comments, 2- and 3-line formats, orphan lines, any interleaving) from_string yields exactly the accepted ones among the texts "
+              "`window ++ [line 2]`, one per line 2, built from at most the two lines in front of it (from_string_windows); nothing survives a tried entry "
+              "(from_string_no_memory), a rejected entry leaves no trace, a valid entry is yielded wherever it stands (rejected_entry_leaves_no_trace, "
+              "valid_entry_yielded_anywhere). Exact differential correspondence of the model with Tle, Tle.from_orbit (grid records, off-grid doubles in five time scales, "
+              "argument forms, histories on one orbit), Tle.from_string, _float, _unfloat.")
+LEVEL_NOTE = ("the float operations IN FRONT of str.format (np.degrees, % 360, n*86400/2pi, /2, /6, the float sum of the day fraction) are not modelled: the model starts at the "
+              "double handed to str.format (the harness evaluates the source's own keyword expressions, which extract compares with the modelled ones); the formatting itself "
+              "(correct rounding, ties to even on the exact binary value), the binary64 product of the small-drag branch and CPython's calendar are inside the model and "
+              "compared exactly; the hand-written model is tied to the code by AST comparison + correspondence; Lean kernel + propext/Classical.choice/Quot.sound")
+TECHNIQUE = ("Lean 4 proofs over a List Char / Int / exact-rational model of tle.py whose column table, writer layout, reads of the orbit and UTC date expression are regenerated "
+             "from the Python AST; exact model/implementation correspondence, histories included")
 TRUSTED = [
-    "harness/props/C12.py extract: reads the column slices of Tle.__init__, the two str.format layouts and keyword expressions of Tle.from_orbit from the AST -> Generated/TleColumns.lean; "
-    "refuses to run (check reports the model as no longer tied) when _float, _unfloat, _checksum, _check_validity, from_string or the strip / eccentricity statements differ statement-wise from the modelled source",
-    "lean/BeyondVerif/Model/Tle.lean (hand-written: int()/float() sub-grammar, _float, _unfloat, Tle.__init__, orbit()+from_orbit numeric prelude as exact decimal rounding, from_string), tied by the correspondence run",
-    "correspondence harness: exact comparison of strings, integers, error kinds and line numbers; parsed floats compared with the model's exact decimals to 1e-13 relative; epoch to the microsecond",
+    "harness/props/C12.py extract: reads the column slices of Tle.__init__, the two str.format layouts and keyword expressions of Tle.from_orbit, every use of the parameter `orbit` "
+    "and the expression assigned to `date` from the AST -> Generated/TleColumns.lean; refuses to run (check reports the model as no longer tied) when _float, _unfloat, _checksum, "
+    "_check_validity, from_string, the argument resolution at the top of from_orbit or the strip / eccentricity statements differ statement-wise from the modelled source",
+    "lean/BeyondVerif/Model/Tle.lean (int()/float() sub-grammar, _float, _unfloat, Tle.__init__, orbit()+from_orbit on records of printed units, from_string), Model/TleOrb.lean "
+    "(argument resolution, catalogue number as text, the orbit as a state machine), Model/TleQuant.lean (exact rationals of doubles, correctly rounded formatting, binary64 rounding "
+    "of one product, CPython's ord2ymd shared with Model/Sgp4Wrap.lean, UTC offset as a parameter): hand-written, tied by the correspondence run",
+    "correspondence harness: exact comparison of strings, integers, error kinds and line numbers; parsed floats compared with the model's exact decimals to 1e-13 relative; epoch to the "
+    "microsecond; off-grid doubles travel as exact fractions; own-scale minus UTC of an orbit's date is taken from Date.change_scale (property C03/C04's domain)",
 ]
 ASSUMPTIONS = [
     "texts are printable ASCII; int()/float() are modelled on the grammar [blanks][sign]digits[.digits] (no exponents, underscores, inf/nan, non-ASCII digits) — every numeric column of a generated or digit-corrupted TLE is in it",
-    "CPython float<->decimal conversion is correctly rounded and the float operations of orbit()/from_orbit (x*2/2, x*6/6, deg2rad/degrees, n*86400/2pi round trip, the day-of-year sum) do not move a printed-grid value across a rounding boundary: "
-    "the model rounds the exact decimal half-even; exact decimal ties (only possible for non-canonical 6+ digit drag mantissas) are excluded from the comparison",
-    "Date(datetime) -> change_scale('UTC').datetime is the identity on UTC microseconds (checked to the microsecond by the correspondence on every parsed case)",
+    "CPython's float formatting ('{:.Nf}', '{:.4e}') is correctly rounded, ties to even on the exact binary value (David Gay's algorithm); float(text) is correctly rounded; "
+    "round(float) is half-even on the float; abs(x) * 10**14 is one binary64 multiplication (10**14 exact): checked by the exact correspondence on off-grid doubles, ties in the "
+    "fourth/fifth/eighth decimal and products at k + 1/2 included",
+    "the float operations in front of the formatting (np.degrees(a) % 360, n*86400/(2 pi), ndot/2, ndotdot/6, x*2/2 and x*6/6 of orbit(), the day-of-year sum hour/24 + minute/1440 + "
+    "second/86400 + microsecond/86400e6) move a value by a few ulp, far below a printed unit: the model takes the day fraction exactly — it agrees with the float sum except possibly when "
+    "the UTC microsecond count is exactly 432 modulo 864 (a tie of the eighth decimal; such cases are compared modulo the tie) — and takes the other numbers as the doubles the source's "
+    "own expressions produce",
+    "Date(datetime) -> change_scale('UTC').datetime is the identity on UTC microseconds; own scale - UTC comes from Date.change_scale (C03/C04)",
     "canonical TLE = what the writer produces from a record in range (InRange in Lemmas/TleWrite.lean): classification U, ephemeris type 0, drag terms with 5-digit normalised mantissa and one-digit exponent (zero as 00000-0), "
-    "designator = 2 digits + piece without surrounding blanks, name line without '0 ' prefix or surrounding blanks",
+    "designator = 2 digits + piece without surrounding blanks, name line without '0 ' prefix or surrounding blanks; WideRange adds 360.0000, day (days of the year + 1).00000000 and ddddd-9",
 ]
 NOT_COVERED = [
-    "classification other than U, ephemeris type other than 0, non-normalised drag terms (written back normalised, or with exponent -9 below 1e-10): outside the quantifier; model and code agree on them (correspondence)",
-    "off-grid float orbits (values between printed units): the theorems speak about records of printed units; rounding of floats to the grid is the float assumption above, exercised by the oracle (1000/10000 random orbits per run)",
-    "the writer emits 360.0000 for an angle within 5e-5 deg below 360, day (N+1).00000000 for the last 432 us of a year and 00000-9 for |x| < 0.5e-14: same elements / same instant to the printed precision, "
-    "but a second generation prints 0.0000 / day 1 of the next year / 00000-0 (counted by the oracle, not failed)",
-    "a line that is neither '1 ' nor '2 ' (e.g. a second line whose number was corrupted to 3) is by design taken as the name line of the following two-line-format entry: the entry is yielded with that name "
-    "(from_string_yields_valid_entries is stated name aside; from_string_framed_exact includes names when every entry kept its line numbers)",
+    "classification other than U, ephemeris type other than 0, non-normalised drag terms other than those the writer itself produces below 1e-10: outside the quantifier; model and code agree on them (correspondence)",
+    "the float operations in front of str.format (see ASSUMPTIONS): exercised end to end by the oracle (half a printed unit + 1e-6 relative slack on 1000/10000 random orbits per run, five time scales), not proved",
+    "a year-end carry in 2056 is written 57001.00000000 by the second generation and read as 1957 (the documented limit of the two-digit year): the text is still a fixed point (proved), the instant is not; "
+    "epochs after 2056-12-31T23:59:59.999568 are outside the quantifier",
+    "negative catalogue numbers: '{:0>5}' and int() accept -9999 … -1000 (the sign fills the fifth column) and refuse the others (Witness negative_norad); alpha-5 numbers are refused "
+    "(int() fails, Witness alpha5_refused); both outside the quantifier (5-digit catalogue numbers)",
+    "a line that is neither '1 ' nor '2 ' (e.g. a second line whose number was corrupted to 3) is by design taken as the name line of the following two-line-format entry: from_string_windows states exactly which lines "
+    "are put in front of a line 2; the entry is yielded with that name",
+    "names containing line breaks, identifiers that are None: outside the model (never generated)",
 ]
-OPEN = []
+OPEN = [
+    "C12-blank-drag-field-indexerror (open finding, proposed_fixes/C12-blank-drag-field-indexerror.diff): Tle(text) raises IndexError on a blank ndotdot/6 or B* field and Tle.from_string dies with it; "
+    "the model follows the code (Err.indexError ends the generator: from_string_windows, Witness blank_drag_field_ends_generator)",
+]
 RULE = ("correspondence: records with every field drawn from its full range with edge values (0, max, 10^k boundaries, year pivot 56/57, leap days), written by an "
         "independent column-table writer; for each: parse, parse->write, write (in and out of range), all single-digit substitutions (exhaustive on 3/50 TLEs, 30 per line "
         "otherwise), deletions/insertions/truncations/leading and trailing blanks, every line-number replacement, 0/1/4-line texts, non-canonical accepted fields; _float/_unfloat "
-        "strings; multi-entry texts with corrupted entries. non-trivial = every case (key = the text); oracle: the property's clauses on Tle, Tle.from_orbit, Tle.from_string, "
-        "_float, _unfloat with tolerances of half a printed unit (epoch 1e-8 day); every formerly failing family (leading blank, stale line 1, e -> 1.0000000, missing line, "
-        "drag below 1e-10) is exercised by directed cases on every run")
+        "strings; multi-entry texts with corrupted entries and arbitrary interleavings of 15 kinds of lines (every ordered pair of kinds followed by a valid entry); off-grid orbits "
+        "(angles at 0, 2pi-, 359.99994/6 deg, e at 0.99999994/6, drag terms around 1e-10 and 0.5e-14, epochs at the last microseconds of a year, dates labelled UTC/TAI/TT/GPS/TDB "
+        "under the real IERS tables, one number pushed out of its columns) sent as exact fractions, then their second and third generation; _unfloat on doubles of every magnitude "
+        "and on ties; datetime -> (yy, day) for every kind of boundary of 1957-2056; histories of 2-10 operations on one orbit (three ways to start, every attribute set by name or "
+        "by index, deleted, copies, re-reads, reads with and without arguments). non-trivial = every case (key = the request); oracle: the property's clauses on Tle, Tle.from_orbit, "
+        "Tle.from_string (three error modes, another comment mark), _float, _unfloat with tolerances of half a printed unit (epoch 1e-8 day); second/third generation after every write; "
+        "orbits held in other forms/frames; every history compared with a freshly built orbit; every formerly failing family (leading blank, stale line 1, e -> 1.0000000, missing "
+        "line, drag below 1e-10, blank drag field) is exercised by directed cases on every run")
 
 TLE_PY = os.path.join(core.REPO, "beyond", "io", "tle.py")
 
@@ -404,7 +472,8 @@ def write_checks(out, orb, what, inp, name=None):
         bad.append(("ids", (tle.norad_id, tle.element_nb, tle.revolutions), (orb.norad_id, orb.element_nb, orb.revolutions)))
     if tle.cospar_id != orb.cospar_id:
         bad.append(("cospar_id", tle.cospar_id, orb.cospar_id))
-    dt = abs((tle.epoch - orb.date).total_seconds())
+    # the TLE day fraction counts 86400 s per UTC day: compare the UTC clock readings (a difference of Dates would count an inserted leap second)
+    dt = abs((tle.epoch.datetime - orb.date.change_scale("UTC").datetime).total_seconds())
     if dt > 864e-6 / 2 + 3e-6:
         bad.append(("epoch", str(orb.date), str(tle.epoch)))
     if bad:
@@ -458,12 +527,62 @@ def gen_float_orbit(rng):
     return real_orbit(vals, date, **data), {"vals": vals, "date": str(date), "epoch": [y, us], "data": data}
 
 
-def o_write(out, rng):
-    """clause 2: any orbit that can be written yields valid lines that parse back to the same elements; writing again is stable"""
+def generations(out, tle, inp):
+    """second and third generation of a written TLE: the third text is the second (offgrid_idempotent_from_second_generation); the second is the
+    first unless the rounding carried (360.0000, day N+1.00000000, 00000-9), and then shows the same angle / instant / value"""
     from beyond.io.tle import Tle
+    t1 = str(tle)
+    try:
+        g2 = Tle.from_orbit(tle.orbit())
+        t2 = str(g2)
+        t3 = str(Tle.from_orbit(g2.orbit()))
+    except Exception as e:  # noqa
+        out.fail("rewrite-raises", "writing the orbit of a written TLE raises", inp, observed=repr(e), expected=t1)
+        return
+    if t3 != t2:
+        out.fail("rewrite-not-stable", "parse -> write is not the identity on a second-generation TLE", inp, observed=t3, expected=t2)
+        return
+    l1, l2 = tle.text.split("\n")
+    carries = []
+    if "360.0000" in l2:
+        carries.append("angle-360.0000")
+    if "00000-9" in l1:
+        carries.append("zero-mantissa-exponent-9")
+    yy, day = int(l1[18:20]), l1[20:32]
+    if day in ("366.00000000", "367.00000000") and int(day[:3]) == (367 if is_leap(full_year(yy)) else 366):
+        carries.append("day-after-year-end")
+    for c in carries:
+        out.tally("written-" + c)
+    if not carries:
+        if t2 != t1:
+            out.fail("rewrite-not-stable", "writing the orbit of a written TLE gives a different text", inp, observed=t2, expected=t1)
+        return
+    # a carry: the second generation names the same angle, instant and value differently
+    a, b = tle, g2
+    import math
+    for nm in ("i", "Ω", "ω", "M"):
+        d = (math.degrees(getattr(a, nm)) - math.degrees(getattr(b, nm))) % 360
+        if min(d, 360 - d) > 1e-9:
+            out.fail("carry-second-generation-" + nm, "after a rounding carry the second generation shows another angle", inp, observed=t2, expected=t1)
+            return
+    if (yy, day[:3]) != (56, "367") and abs((a.epoch.datetime - b.epoch.datetime).total_seconds()) > 1e-6:
+        out.fail("carry-second-generation-epoch", "after a year-end carry the second generation shows another instant", inp, observed=t2, expected=t1)
+        return
+    if (yy, day[:3]) == (56, "367"):
+        out.tally("year-2057-reads-as-1957")       # the documented limit of the two-digit year: outside the quantifier (epochs 1957-2056)
+    if (a.e, a.n, a.ndot, a.bstar, a.ndotdot, a.norad_id, a.cospar_id, a.element_nb, a.revolutions, a.name) != \
+       (b.e, b.n, b.ndot, b.bstar, b.ndotdot, b.norad_id, b.cospar_id, b.element_nb, b.revolutions, b.name):
+        out.fail("carry-second-generation-value", "after a rounding carry the second generation shows other values", inp, observed=t2, expected=t1)
+
+
+def o_write(out, rng):
+    """clause 2: any orbit that can be written yields valid lines that parse back to the same elements; from the second generation on writing is stable"""
     orb, inp = gen_float_orbit(rng)
+    scale = rng.choice(SCALES)
+    orb = with_scale(orb, scale)
+    inp = dict(inp, scale=scale)
     tle, err = write_checks(out, orb, "written TLE does not parse back to the orbit's elements", inp)
-    out.count(key=repr(inp["vals"]), kind="write-float", writable=tle is not None)
+    out.count(key=repr(inp["vals"]), kind="write-float", writable=tle is not None, scale=scale)
     if tle is None:
         out.tally("unwritable=" + err[:24])
         e = inp["vals"][2]
@@ -473,24 +592,125 @@ def o_write(out, rng):
             out.fail("write-small-drag-unwritable" if small else "write-in-range-unwritable", "an orbit inside the ranges of the format cannot be written", inp,
                      observed=err, expected="a TLE")
         return
-    # second generation: text -> orbit -> text must be a fixed point unless an angle was rounded up to 360.0000
-    l1, l2 = tle.text.split("\n")
-    if "360.0000" in l2:
-        out.tally("written-angle-360.0000")
+    generations(out, tle, inp)
+
+
+FOREIGN = [("cartesian", "TEME"), ("keplerian", "TEME"), ("cartesian", "EME2000"), ("keplerian_mean", "EME2000"), ("spherical", "TEME"), ("cartesian", "ITRF"), ("tle", "EME2000")]
+
+
+def o_foreign_form(out, rng):
+    """Tle.from_orbit on an orbit held in another form / frame: the argument is left as it was (the conversion is made on a copy), and the text is
+    the one of the explicitly converted copy"""
+    import numpy as np
+    from beyond.io.tle import Tle
+    r = gen_rec(rng)
+    if r["e7"] > 9 * 10**6 or r["n8"] < 10**7:
+        r["e7"], r["n8"] = 6703, 1572125391         # conversions through cartesian need a proper ellipse
+    base = rec_to_orbit(r)
+    form, frame = rng.choice(FOREIGN)
+    try:
+        orb = base.copy(form=form, frame=frame)
+    except Exception:  # noqa
         return
-    if "00000-9" in l1:
-        # |x| < 0.5e-14 is written as a zero mantissa with exponent -9; the second generation writes the canonical zero 00000-0
-        out.tally("written-zero-mantissa-exponent-9")
+    before = (np.array(orb).copy(), orb.form.name, orb.frame.name, str(orb.date))
+    if not np.all(np.isfinite(before[0])):
+        out.tally("foreign-form-not-finite-skipped")
         return
-    yy, day = int(l1[18:20]), l1[20:32]
-    if day in ("366.00000000", "367.00000000") and int(day[:3]) == (367 if is_leap(full_year(yy)) else 366):
-        # the last half 1e-8 day of a year is written as day (number of days + 1).00000000 of the same year: same instant,
-        # second generation names it day 1 of the next year
-        out.tally("written-day-after-year-end")
+    out.count(key=(spec_text(r), form, frame), kind="foreign-form", form=form, frame=frame)
+    inp = {"record": r, "form": form, "frame": frame}
+    try:
+        want = str(Tle.from_orbit(orb.copy(form="TLE", frame="TEME")))
+    except Exception as e:  # noqa
+        want = real_error_token(e)
+    try:
+        got = str(Tle.from_orbit(orb))
+    except Exception as e:  # noqa
+        got = real_error_token(e)
+    after = (np.array(orb).copy(), orb.form.name, orb.frame.name, str(orb.date))
+    if not (np.array_equal(before[0], after[0]) and before[1:] == after[1:]):
+        out.fail("from-orbit-modifies-argument", "Tle.from_orbit converted the caller's orbit in place", inp,
+                 observed=[after[1], after[2], [float(x) for x in after[0]]], expected=[before[1], before[2], [float(x) for x in before[0]]])
         return
-    again = str(Tle.from_orbit(tle.orbit()))
-    if again != str(tle):
-        out.fail("rewrite-not-stable", "writing the orbit of a written TLE gives a different text", inp, observed=again, expected=str(tle))
+    if got != want:
+        out.fail("from-orbit-foreign-form", "Tle.from_orbit of an orbit in another form/frame differs from the text of its converted copy", inp, observed=got, expected=want)
+
+
+def o_from_string_modes(out, rng):
+    """the options of Tle.from_string: error='raise' stops with TleParseError at the first refused entry (the entries before it are yielded),
+    error='warn' logs one warning per refused entry and yields what 'ignore' yields; another comment mark"""
+    import logging
+    from beyond.io.tle import Tle, TleParseError
+    lines, toks = gen_line_tokens(rng, allow_blank_drag=False)
+    atts = spec_attempts(lines)
+    verdicts = [try_parse("\n".join(a)) for a in atts]
+    out.count(key="\n".join(lines), kind="from-string-modes")
+    inp = {"lines": lines, "tokens": toks, "mode": "raise"}
+    # raise
+    n_before = next((k for k, v in enumerate(verdicts) if v[0] != "ok"), len(verdicts))
+    got, end = real_from_string(lines, error="raise")
+    want_end = "done" if n_before == len(verdicts) else "TleParseError"
+    if end != want_end or [g[1] for g in got] != [v[1].text for v in verdicts[:n_before]]:
+        out.fail("from-string-error-raise", "Tle.from_string(error='raise') does not stop with TleParseError at the first refused entry", inp,
+                 observed=[end] + [g[1] for g in got], expected=[want_end] + [v[1].text for v in verdicts[:n_before]])
+        return
+    # warn
+    class H(logging.Handler):
+        def __init__(self):
+            super().__init__()
+            self.n = 0
+
+        def emit(self, record):
+            if record.levelno >= logging.WARNING:
+                self.n += 1
+    h = H()
+    lg = logging.getLogger("beyond.io.tle")
+    lg.addHandler(h)
+    old = lg.level
+    lg.setLevel(logging.WARNING)
+    try:
+        got, end = real_from_string(lines, error="warn")
+    finally:
+        lg.removeHandler(h)
+        lg.setLevel(old)
+    n_bad = sum(1 for v in verdicts if v[0] != "ok")
+    if end != "done" or [g[1] for g in got] != [v[1].text for v in verdicts if v[0] == "ok"] or h.n != n_bad:
+        out.fail("from-string-error-warn", "Tle.from_string(error='warn') does not yield the accepted entries with one warning per refused entry", dict(inp, mode="warn"),
+                 observed=[end, h.n] + [g[1] for g in got], expected=["done", n_bad] + [v[1].text for v in verdicts if v[0] == "ok"])
+        return
+    # another comment mark: lines starting with ';' are skipped, lines starting with '#' are ordinary (name) lines
+    lines2 = []
+    for l in lines:
+        lines2.append(l)
+        if rng.random() < 0.2:
+            lines2.append("; remark")
+    try:
+        got = [(t.name, t.text) for t in Tle.from_string("\n".join(lines2), comments=";", error="ignore")]
+        end = "done"
+    except Exception as e:  # noqa
+        got, end = [], type(e).__name__
+
+    def kind2(l):
+        if not l.strip() or l.startswith(";"):
+            return "skip"
+        return "one" if l.startswith("1 ") else ("two" if l.startswith("2 ") else "other")
+    # the same window rule with the other mark
+    exp = []
+    p2 = p1 = None
+    for x in lines2:
+        k = kind2(x)
+        if k == "skip":
+            continue
+        if k == "two":
+            w = [] if p1 is None else (([p1] if (p2 is None or p2.startswith("1 ")) else [p2, p1]) if p1.startswith("1 ") else [p1])
+            kk, t = try_parse("\n".join(w + [x]))
+            if kk == "ok":
+                exp.append((t.name, t.text))
+            p2 = p1 = None
+        else:
+            p2, p1 = p1, x
+    if end != "done" or got != exp:
+        out.fail("from-string-comments-option", "Tle.from_string(comments=';') does not skip exactly the lines starting with that mark", {"lines": lines2, "tokens": toks, "mode": "comments"},
+                 observed=[end] + [g[1] for g in got], expected=["done"] + [e[1] for e in exp])
 
 
 def o_write_grid(out, r):
@@ -545,6 +765,12 @@ def o_corrupt(out, rng, r, n_digit, n_len):
             ls = list(both)
             ls[li] = bad
             judge("linenum", ls, "line number")
+        # a digit turned into a character no TLE line contains (lower case, punctuation): never acceptable, whatever the check digit says
+        digs = [p for p, c in enumerate(both[li]) if c.isdigit() and p > 0]
+        for p in (digs if n_digit is None else rng.sample(digs, min(12, len(digs)))):
+            ls = list(both)
+            ls[li] = corrupt_digit(both[li], p, rng.choice("abcxyz_*,;:!"))
+            judge("digit-to-foreign-char", ls, "character (a digit replaced by a character that is not part of the format)")
     # a line of length zero: the text has a single line left
     judge("missing-line", [l1, ""], "length (second line empty)")
     judge("missing-line", [l1], "length (second line missing)")
@@ -637,6 +863,464 @@ def o_from_string_directed(out, rng):
                 o_from_string(out, rng, recs, ["valid", kind, "valid"], fillers=False, tag="from-string-directed")
 
 
+# ---------------------------------------------------------------- from_string on arbitrary lists of lines
+
+def line_kind(l):
+    if not l.strip() or l.startswith("#"):
+        return "skip"
+    if l.startswith("1 "):
+        return "one"
+    if l.startswith("2 "):
+        return "two"
+    return "other"
+
+
+def spec_attempts(lines):
+    """the texts a reader without memory tries, one per non-skipped line '2 ...': that line preceded by the line '1 ...' in front of it and
+    by the name line in front of that (Props/C12Lines.lean `attempts` / `window`; written from the property, not from the code)"""
+    out = []
+    p2 = p1 = None
+    for x in lines:
+        k = line_kind(x)
+        if k == "skip":
+            continue
+        if k == "two":
+            if p1 is None:
+                w = []
+            elif p1.startswith("1 "):
+                w = [p1] if (p2 is None or p2.startswith("1 ")) else [p2, p1]
+            else:
+                w = [p1]
+            out.append(w + [x])
+            p2 = p1 = None
+        else:
+            p2, p1 = p1, x
+    return out
+
+
+def blank_field(l1, a, b):
+    v = l1[:a] + " " * (b - a) + l1[b:68]
+    return v + str(spec_checksum(v))
+
+
+LINE_TOKENS = ["valid2", "valid3", "valid3-0", "digit", "length", "blank", "comment", "orphan1", "orphan2", "junk", "lead-blank-1", "swapped", "bad-then-1",
+               "blank-inside", "blank-drag"]
+
+
+def token_lines(rng, t):
+    """the lines of one token of an arbitrary text"""
+    r = gen_rec(rng, named=t in ("valid3", "valid3-0"))
+    l1, l2 = spec_lines(r)
+    if t == "valid2":
+        return [l1, l2]
+    if t == "valid3":
+        return [r["name"] + rng.choice(["", "  "]), l1, l2]
+    if t == "valid3-0":
+        return ["0 " + r["name"], l1, l2]
+    if t in ("digit", "length"):
+        return corrupt_entry(rng, l1, l2, t)
+    if t == "blank":
+        return [rng.choice(["", "   ", "\t"])]
+    if t == "comment":
+        return [rng.choice(["# comment", "#", "#1 25544U"])]
+    if t == "orphan1":
+        return [l1]
+    if t == "orphan2":
+        return [l2]
+    if t == "junk":
+        return [rng.choice([gen_name(rng), "1", "2", "1X", "3 " + l2[2:], " # indented", "0 NAME", "25544"])]
+    if t == "lead-blank-1":
+        return [" " + l1, l2]
+    if t == "swapped":
+        return [l2, l1]
+    if t == "bad-then-1":
+        return [l1, "1" + l2[1:]]
+    if t == "blank-inside":
+        return [l1, rng.choice(["", "# c"]), l2]
+    if t == "blank-drag":
+        a, b = rng.choice([(44, 52), (53, 61)])
+        return [blank_field(l1, a, b), l2]
+    raise ValueError(t)
+
+
+def gen_line_tokens(rng, n=None, allow_blank_drag=True):
+    """an arbitrary interleaving: -> (list of lines, list of token names)"""
+    lines, toks = [], []
+    for _ in range(n or rng.randint(1, 7)):
+        t = rng.choice(LINE_TOKENS)
+        if t == "blank-drag" and (not allow_blank_drag or rng.random() < 0.7):
+            t = "valid2"
+        lines += token_lines(rng, t)
+        toks.append(t)
+    return lines, toks
+
+
+def real_from_string(lines, error="ignore"):
+    """-> (list of (name, text), 'done' | exception type name)"""
+    from beyond.io.tle import Tle
+    got = []
+    try:
+        for t in Tle.from_string("\n".join(lines), error=error):
+            got.append((t.name, t.text))
+    except Exception as e:  # noqa
+        return got, type(e).__name__
+    return got, "done"
+
+
+def judge_from_string_lines(out, lines, toks, tag):
+    """clause 4 on an arbitrary list of lines: exactly the accepted attempts, with their names, in order; never an exception"""
+    atts = spec_attempts(lines)
+    expected = []
+    for a in atts:
+        k, t = try_parse("\n".join(a))
+        if k == "ok":
+            expected.append((t.name, t.text))
+    got, end = real_from_string(lines)
+    inp = {"lines": lines, "tokens": toks}
+    if end != "done":
+        # which attempt raises on its own?
+        culprit = next((a for a in atts if try_parse("\n".join(a))[0].startswith("other")), None)
+        fam = "from-string-raises-" + end
+        if culprit is not None and end == "IndexError":
+            l1 = culprit[-2] if len(culprit) >= 2 else ""
+            if len(l1.strip()) == 69 and (not l1.strip()[44:52].strip() or not l1.strip()[53:61].strip()):
+                fam = "from-string-raises-IndexError-blank-drag-field"
+        out.fail(fam, "Tle.from_string(error='ignore') raises instead of skipping the entry: the valid entries after it are lost", inp,
+                 observed=end, expected=[e[1] for e in expected])
+        return
+    if [g[1] for g in got] != [e[1] for e in expected]:
+        lost = [e for e in expected if e[1] not in [g[1] for g in got]]
+        fam = "from-string-lines-entry-lost" if lost else "from-string-lines-extra-entry"
+        out.fail(fam + "-" + tag, "Tle.from_string does not yield exactly the accepted entries of the text", inp, observed=[g[1] for g in got], expected=[e[1] for e in expected])
+        return
+    for g, e in zip(got, expected):
+        if g[0] != e[0]:
+            out.fail("from-string-lines-name-" + tag, "an entry is yielded with a name that is not the line in front of its line 1", inp, observed=g[0], expected=e[0])
+            return
+
+
+def o_from_string_lines(out, rng):
+    lines, toks = gen_line_tokens(rng, allow_blank_drag=False)
+    out.count(key="\n".join(lines), kind="from-string-lines", tokens=len(toks))
+    for t in toks:
+        out.tally("fs-token=" + t)
+    judge_from_string_lines(out, lines, toks, "random")
+
+
+def o_from_string_pairs(out, rng):
+    """every ordered pair of token kinds followed by a valid entry, so that what each kind leaves behind meets each kind (the cache after a
+    rejected entry, an orphan line, a name line...)"""
+    kinds = [k for k in LINE_TOKENS if k != "blank-drag"]
+    for a in kinds:
+        for b in kinds:
+            lines = token_lines(rng, a) + token_lines(rng, b) + token_lines(rng, "valid2")
+            out.count(key="\n".join(lines), kind="from-string-pairs")
+            judge_from_string_lines(out, lines, [a, b, "valid2"], "after-" + a + "-" + b)
+
+
+def o_from_string_blank_drag(out, rng):
+    """an entry whose drag field is blank (checksum right) between valid entries: Tle(...) must refuse it with a ValueError and from_string skip it"""
+    for a, b in ((44, 52), (53, 61)):
+        r0, r1, r2 = gen_rec(rng, named=False), gen_rec(rng, named=False), gen_rec(rng)
+        l1, l2 = spec_lines(r1)
+        lines = list(spec_lines(r0)) + [blank_field(l1, a, b), l2] + spec_text(r2).split("\n")
+        out.count(key="\n".join(lines), kind="from-string-blank-drag")
+        judge_from_string_lines(out, lines, ["valid2", "blank-drag", "valid"], "blank-drag")
+
+
+
+# ---------------------------------------------------------------- operation histories on one orbit (Model/TleOrb.lean)
+
+def gen_cospar_id(rng):
+    return "%d-%03d%s" % (rng.randint(1957, 2056), rng.randint(1, 999), "".join(rng.choice(UPPER) for _ in range(rng.choice([1, 2, 3]))))
+
+
+def gen_history(rng, n=None):
+    """-> (start form, record, list of ops). An op is a tuple: ('name', str|None) ('norad', ('i', int)|('s', str)|None) ('cospar', str|None)
+    ('num', field, value) ('epoch', yy, day8) ('ndot', neg, m8) ('ndd', unfl) ('bstar', unfl) ('elnb', int) ('revs', int) ('copy',) ('copyconv',)
+    ('reread',) ('read', name|None, norad|None, cospar|None)"""
+    start = rng.choice(["tle", "tle", "rec", "bare"])
+    r = gen_rec(rng)
+    ops = []
+    for _ in range(n or rng.randint(2, 9)):
+        k = rng.random()
+        if k < 0.30:
+            kw = [None, None, None]
+            if rng.random() < 0.25:
+                kw[0] = rng.choice(["", gen_name(rng)])
+            if rng.random() < 0.25:
+                kw[1] = rng.choice([("i", 0), ("i", rng.randint(0, 99999)), ("s", "%05d" % rng.randint(0, 99999)), ("i", 100000), ("s", "A0001"), ("s", "7")])
+            if rng.random() < 0.25:
+                kw[2] = rng.choice(["", gen_cospar_id(rng)])
+            ops.append(("read",) + tuple(kw))
+        elif k < 0.40:
+            ops.append(rng.choice([("copy",), ("copyconv",)]))
+        elif k < 0.47:
+            ops.append(("reread",))
+        elif k < 0.55:
+            ops.append(("name", rng.choice([None, "", gen_name(rng)])))
+        elif k < 0.63:
+            ops.append(("norad", rng.choice([None, ("i", 0), ("i", rng.randint(0, 99999)), ("i", 99999), ("i", 100000), ("s", "%05d" % rng.randint(0, 99999)), ("s", "A0001"), ("s", "42")])))
+        elif k < 0.70:
+            ops.append(("cospar", rng.choice([None, "", gen_cospar_id(rng)])))
+        else:
+            g = gen_rec(rng)
+            f = rng.choice(["inc4", "raan4", "argp4", "ma4", "ecc7", "mm8", "epoch", "ndot", "ndd", "bstar", "elnb", "revs", "ecc-one", "elnb-wide", "revs-wide"])
+            if f in ("inc4", "raan4", "argp4", "ma4", "ecc7", "mm8"):
+                ops.append(("num", f, g[{"mm8": "n8", "ecc7": "e7", "inc4": "i4"}.get(f, f)]))
+            elif f == "epoch":
+                ops.append(("epoch", g["yy"], g["day8"]))
+            elif f == "ndot":
+                ops.append(("ndot",) + tuple(g["ndot"]))
+            elif f in ("ndd", "bstar"):
+                ops.append((f, g[f]))
+            elif f in ("elnb", "revs"):
+                ops.append((f, g[f]))
+            elif f == "ecc-one":
+                ops.append(("num", "ecc7", 10**7))
+            elif f == "elnb-wide":
+                ops.append(("elnb", 10000))
+            else:
+                ops.append(("revs", 100000))
+    ops.append(("read", None, None, None))
+    return start, r, ops
+
+
+def hist_start(start, r):
+    """the real orbit a history starts from"""
+    from beyond.io.tle import Tle
+    if start == "tle":
+        return Tle(spec_text(r)).orbit()
+    orb = rec_to_orbit(r)
+    if start == "bare":
+        for k in ("name", "norad_id", "cospar_id"):
+            del orb._data[k]
+    return orb
+
+
+def hist_apply(orb, cur, op, rng=None):
+    """apply one non-read op to the real orbit (in place where the op is an in-place modification); cur is the shadow record. -> orbit"""
+    import math
+    from datetime import datetime, timedelta
+    from beyond.dates import Date
+    from beyond.io.tle import Tle
+    k = op[0]
+    alt = rng is not None and rng.random() < 0.5     # attribute name or index / item access: two routes to the same cell
+    if k == "name":
+        if op[1] is None:
+            orb._data.pop("name", None)
+        else:
+            orb.name = op[1]
+    elif k == "norad":
+        if op[1] is None:
+            orb._data.pop("norad_id", None)
+        else:
+            orb.norad_id = op[1][1]
+    elif k == "cospar":
+        if op[1] is None:
+            orb._data.pop("cospar_id", None)
+        else:
+            orb.cospar_id = op[1]
+    elif k == "num":
+        f, v = op[1], op[2]
+        cur[{"mm8": "n8", "ecc7": "e7", "inc4": "i4"}.get(f, f)] = v
+        idx = {"inc4": 0, "raan4": 1, "ecc7": 2, "argp4": 3, "ma4": 4, "mm8": 5}[f]
+        val = v / 1e7 if f == "ecc7" else (v / 1e8 * 2 * math.pi / 86400.0 if f == "mm8" else math.radians(v / 1e4))
+        if alt:
+            orb[idx] = val
+        else:
+            setattr(orb, ["i", "Ω", "e", "ω", "M", "n"][idx], val)
+    elif k == "epoch":
+        cur["yy"], cur["day8"] = op[1], op[2]
+        orb.date = Date(datetime(full_year(op[1]), 1, 1) + timedelta(microseconds=(op[2] - 10**8) * 864))
+    elif k == "ndot":
+        cur["ndot"] = (op[1], op[2])
+        v = op[2] / 1e8 * 2
+        if alt:
+            orb["ndot"] = -v if op[1] else v
+        else:
+            orb.ndot = -v if op[1] else v
+    elif k == "ndd":
+        cur["ndd"] = op[1]
+        orb.ndotdot = float(unfl_value(op[1])) * 6
+    elif k == "bstar":
+        cur["bstar"] = op[1]
+        orb.bstar = float(unfl_value(op[1]))
+    elif k == "elnb":
+        cur["elnb"] = op[1]
+        orb.element_nb = op[1]
+    elif k == "revs":
+        cur["revs"] = op[1]
+        orb.revolutions = op[1]
+    elif k == "copy":
+        orb = orb.copy()
+    elif k == "copyconv":
+        orb = orb.copy(form="TLE", frame="TEME")
+    elif k == "reread":
+        try:
+            orb = Tle.from_orbit(orb).orbit()
+        except ValueError:
+            pass
+    return orb
+
+
+def hist_read(orb, op):
+    from beyond.io.tle import Tle
+    kw = {}
+    if op[1] is not None:
+        kw["name"] = op[1]
+    if op[2] is not None:
+        kw["norad_id"] = op[2][1]
+    if op[3] is not None:
+        kw["cospar_id"] = op[3]
+    try:
+        return "ok " + str(Tle.from_orbit(orb, **kw)), kw
+    except Exception as e:  # noqa
+        return real_error_token(e), kw
+
+
+def hist_line(start, r, ops):
+    def optstr(v):
+        return "-" if v is None else hx(v)
+
+    def optid(v):
+        return "-" if v is None else ("i%d" % v[1] if v[0] == "i" else "s" + hx(v[1]))
+
+    def u(x):
+        return "z" if x[1] == 0 else f"{1 if x[0] else 0} {x[1]} {x[2]}"
+    if start == "bare":
+        ident = ["-", "-", "-"]
+    else:
+        ident = [hx(r["name"]), "i%d" % r["norad"], hx(rec_cospar_id(r))]
+    toks = ["tle.hist"] + ident + ["1" if start == "tle" else "0"] + rec_line(r).split(" ")[1:]
+    for op in ops:
+        k = op[0]
+        if k in ("name", "cospar"):
+            t = [k, optstr(op[1])]
+        elif k == "norad":
+            t = [k, optid(op[1])]
+        elif k == "num":
+            t = ["num", op[1], str(op[2])]
+        elif k == "epoch":
+            t = ["num", "yy", str(op[1]), "|", "num", "day8", str(op[2])]
+        elif k == "ndot":
+            t = ["ndotneg", "1" if op[1] else "0", "|", "num", "ndot8", str(op[2])]
+        elif k in ("ndd", "bstar"):
+            t = [k] + u(op[1]).split(" ")
+        elif k in ("elnb", "revs"):
+            t = [k, str(op[1])]
+        elif k in ("copy", "copyconv"):
+            t = ["copy"]
+        elif k == "reread":
+            t = ["reread"]
+        else:
+            t = ["read", optstr(op[1]), optid(op[2]), optstr(op[3])]
+        toks += ["|"] + t
+    return " ".join(toks)
+
+
+def k_history(out, rng, n):
+    """sequence correspondence: random histories on one real orbit vs the compiled state machine"""
+    hs = [gen_history(rng) for _ in range(n)]
+    reqs = [hist_line(*h) for h in hs]
+    for (start, r, ops), m, req in zip(hs, core.Driver().run(reqs), reqs):
+        orb = hist_start(start, r)
+        cur = dict(r)
+        real = []
+        for op in ops:
+            if op[0] == "read":
+                real.append(hist_read(orb, op)[0])
+            else:
+                orb = hist_apply(orb, cur, op, rng)
+        model = []
+        for x in (m.split(" ; ") if m else []):
+            model.append("ok " + "\n".join(unhx(y) for y in x[3:].split(",")) if x.startswith("ok ") else x)
+        out.count(key=("hist", req), kind="history", start=start, reads=len(real), ops=len(ops))
+        for op in ops:
+            out.tally("hist-op=" + op[0])
+        if real != model:
+            k = next((i for i, (a, b) in enumerate(zip(real, model)) if a != b), min(len(real), len(model)))
+            out.fail("history", "a read after a history of modifications differs from the model", {"start": start, "record": r, "ops": ops, "read": k},
+                     observed=real[k] if k < len(real) else real, expected=model[k] if k < len(model) else model)
+    out.sample({"request": reqs[0][:200], "reply": "(see correspondence)"}, limit=3)
+
+
+ID_KEYS = ("bstar", "ndot", "ndotdot", "name", "cospar_id", "norad_id", "element_nb", "revolutions", "type")
+
+
+def fresh_orbit(orb):
+    """a new orbit holding the current values of `orb` and nothing else (no source Tle)"""
+    return real_orbit([float(x) for x in orb], orb.date, **{k: orb._data[k] for k in ID_KEYS if k in orb._data})
+
+
+def run_history(out, start, r, ops, rng=None):
+    """clause 'after any in-place modification, Tle.from_orbit reflects the current values' on one history"""
+    from beyond.io.tle import Tle
+    orb = hist_start(start, r)
+    cur = dict(r)
+    ident_touched = start == "bare"
+    last_mod = "none"
+    inp = {"start": start, "record": r, "ops": ops}
+    for n_op, op in enumerate(ops):
+        if op[0] != "read":
+            orb = hist_apply(orb, cur, op, rng)
+            if op[0] in ("name", "norad", "cospar"):
+                ident_touched = True
+            if op[0] not in ("copy", "copyconv", "reread"):
+                last_mod = op[0] if op[0] != "num" else op[1]
+            continue
+        got, kw = hist_read(orb, op)
+        try:
+            want = "ok " + str(Tle.from_orbit(fresh_orbit(orb), **kw))
+        except Exception as e:  # noqa
+            want = real_error_token(e)
+        if got != want:
+            out.fail("history-read-differs-from-fresh-after-" + last_mod, "Tle.from_orbit on an orbit with a history differs from Tle.from_orbit on a fresh orbit holding the same values",
+                     dict(inp, read=n_op), observed=got, expected=want)
+            return
+        if kw and got.startswith("ok "):
+            # explicit arguments take precedence over what the orbit carries
+            from beyond.io.tle import Tle
+            t = Tle(got[3:])
+            bad = None
+            if "name" in kw and t.name != kw["name"].strip():
+                bad = ("name", t.name, kw["name"])
+            if "norad_id" in kw and t.norad_id != int(kw["norad_id"]):
+                bad = ("norad_id", t.norad_id, kw["norad_id"])
+            if "cospar_id" in kw and t.cospar_id != kw["cospar_id"]:
+                bad = ("cospar_id", t.cospar_id, kw["cospar_id"])
+            if bad:
+                out.fail("from-orbit-argument-" + bad[0], "an explicit argument of Tle.from_orbit is not what the written TLE shows", dict(inp, read=n_op), observed=bad[1], expected=bad[2])
+                return
+        in_range = cur["e7"] < 10**7 and cur["elnb"] < 10000 and cur["revs"] < 100000
+        if not ident_touched and not kw and in_range:
+            spec = "ok " + spec_text(cur)
+            if got != spec:
+                out.fail("history-read-stale-after-" + last_mod, "Tle.from_orbit does not show the current values of the orbit", dict(inp, read=n_op), observed=got, expected=spec)
+                return
+
+
+def o_history(out, rng):
+    start, r, ops = gen_history(rng)
+    out.count(key=hist_line(start, r, ops), kind="history", start=start)
+    run_history(out, start, r, ops, rng)
+
+
+def o_history_directed(out, rng):
+    """parse, take the orbit, change ONE thing in place, write: for every thing that can be changed, with and without a copy in between"""
+    g = gen_rec(rng)
+    mods = [("num", f, g[{"mm8": "n8", "ecc7": "e7", "inc4": "i4"}.get(f, f)]) for f in ("inc4", "raan4", "argp4", "ma4", "ecc7", "mm8")] + \
+           [("ndot",) + tuple(g["ndot"]), ("ndd", g["ndd"]), ("bstar", g["bstar"]), ("elnb", g["elnb"]), ("revs", g["revs"]), ("epoch", g["yy"], g["day8"])]
+    for mod in mods:
+        for mid in ([], [("copy",)], [("read", None, None, None)], [("copyconv",), ("read", None, None, None)]):
+            for start in ("tle", "rec"):
+                r = gen_rec(rng)
+                ops = mid + [mod] + [("read", None, None, None)]
+                out.count(key=hist_line(start, r, ops), kind="history-directed")
+                run_history(out, start, r, ops, rng)
+
+
+
 def o_unfloat(out, rng):
     from beyond.io.tle import _float, _unfloat
     u = gen_unfl(rng)
@@ -652,6 +1336,8 @@ def o_unfloat(out, rng):
 
 
 def oracle(ctx, widened):
+    from harness import env
+    env.use_real_eop()
     out = Outcome()
     rng = ctx.rng
     big = widened or ctx.thorough
@@ -669,8 +1355,37 @@ def oracle(ctx, widened):
         o_from_string(out, rng, [gen_rec(rng) for _ in range(rng.randint(1, 5))])
     for _ in range(10 if big else 1):
         o_from_string_directed(out, rng)
+    for _ in range(4000 if big else 400):
+        o_from_string_lines(out, rng)
+    for _ in range(5 if big else 1):
+        o_from_string_pairs(out, rng)
+    o_from_string_blank_drag(out, rng)
+    for _ in range(3000 if big else 300):
+        o_history(out, rng)
+    for _ in range(3 if big else 1):
+        o_history_directed(out, rng)
+    for _ in range(1500 if big else 150):
+        o_foreign_form(out, rng)
+    for _ in range(1500 if big else 150):
+        o_from_string_modes(out, rng)
     out.sample({"checked": "parse->write identity, write->parse elements, 69 columns + checksums, every digit/length/line-number corruption rejected, from_string yields exactly the valid entries"})
     return out
+
+
+def replay_modes(out, i):
+    """re-run the option checks of Tle.from_string on recorded lines"""
+    import random as _r
+    import harness.props.C12 as me
+    saved = me.gen_line_tokens
+    lines = [l for l in i["lines"] if l != "; remark"]
+    me.gen_line_tokens = lambda rng, n=None, allow_blank_drag=True: (lines, i["tokens"])
+    try:
+        for seed in range(5):
+            o_from_string_modes(out, _r.Random(seed))
+            if out.failures:
+                break
+    finally:
+        me.gen_line_tokens = saved
 
 
 def replay(f):
@@ -681,7 +1396,15 @@ def replay(f):
     i = f["input"]
     fam = f["family"]
     rng = random.Random(0)
-    if "record" in i:
+    if "ops" in i:
+        ops = [tuple(tuple(x) if isinstance(x, list) else x for x in op) for op in i["ops"]]
+        r = dict(i["record"])
+        for k in ("ndot", "ndd", "bstar"):
+            r[k] = tuple(r[k])
+        run_history(out, i["start"], r, ops)
+        for x in out.failures:
+            x["family"] = fam
+    elif "record" in i:
         r = dict(i["record"])
         for k in ("ndot", "ndd", "bstar"):
             r[k] = tuple(r[k])
@@ -704,6 +1427,32 @@ def replay(f):
         k, t = try_parse(i["text"])
         if k == "ok" or k.startswith("other"):
             out.fail(fam, f["what"], i, observed=k)
+    elif "form" in i and "frame" in i:
+        import random as _r
+        rr = dict(i["record"])
+        for k in ("ndot", "ndd", "bstar"):
+            rr[k] = tuple(rr[k])
+
+        class Fixed(_r.Random):
+            def choice(self, seq):
+                return (i["form"], i["frame"]) if seq is FOREIGN else super().choice(seq)
+        import harness.props.C12 as me
+        saved = me.gen_rec
+        me.gen_rec = lambda rng, named=None: rr
+        try:
+            o_foreign_form(out, Fixed(0))
+        finally:
+            me.gen_rec = saved
+        for x in out.failures:
+            x["family"] = fam
+    elif "lines" in i and "mode" in i:
+        replay_modes(out, i)
+        for x in out.failures:
+            x["family"] = fam
+    elif "lines" in i and "tokens" in i:
+        judge_from_string_lines(out, i["lines"], i["tokens"], fam.rsplit("-", 1)[-1] if False else "replay")
+        for x in out.failures:
+            x["family"] = fam
     elif "kinds" in i:
         from beyond.io.tle import Tle
         try:
@@ -1032,6 +1781,89 @@ def read_writer(tree):
     return parse_format(fmts["line1"][0]), parse_format(fmts["line2"][0])
 
 
+def read_orbit_uses(tree):
+    """every use of the parameter `orbit` inside Tle.from_orbit, in source order, without repetitions: attribute names, hasattr/getattr
+    probes, the re-assignment by copy(), the unpacking of the six elements; anything else shows up as '<other:…>'"""
+    fo = _find(tree, "Tle", "from_orbit")
+    parents = {}
+    for node in ast.walk(fo):
+        for ch in ast.iter_child_nodes(node):
+            parents[ch] = node
+    uses = []
+    for node in ast.walk(fo):
+        if isinstance(node, ast.Name) and node.id == "orbit":
+            par = parents[node]
+            if isinstance(node.ctx, ast.Store):
+                tok = "<assign>"
+            elif isinstance(par, ast.Attribute) and par.value is node:
+                tok = par.attr
+            elif (isinstance(par, ast.Call) and isinstance(par.func, ast.Name) and par.func.id in ("hasattr", "getattr") and par.args and par.args[0] is node
+                  and len(par.args) >= 2 and isinstance(par.args[1], ast.Constant)):
+                tok = f"{par.func.id}:{par.args[1].value}"
+            elif isinstance(par, ast.Assign) and par.value is node and isinstance(par.targets[0], ast.Tuple):
+                tok = f"<unpack{len(par.targets[0].elts)}>"
+            else:
+                tok = f"<other:{type(par).__name__}>"
+            uses.append((node.lineno, node.col_offset, tok))
+        elif isinstance(node, ast.arg) and node.arg == "orbit":
+            pass
+    uses.sort()
+    out = []
+    for _, _, t in uses:
+        if t not in out:
+            out.append(t)
+    date_expr = None
+    copy_expr = None
+    for st in fo.body:
+        if isinstance(st, ast.Assign) and isinstance(st.targets[0], ast.Name):
+            if st.targets[0].id == "date":
+                date_expr = ast.unparse(st.value).replace('"', "'")
+            if st.targets[0].id == "orbit":
+                copy_expr = ast.unparse(st.value).replace('"', "'")
+    if date_expr is None or copy_expr is None:
+        raise RuntimeError("Tle.from_orbit no longer assigns `date` / re-assigns `orbit`")
+    return out, date_expr, copy_expr
+
+
+FROM_ORBIT_HEAD = '''
+if name is not None:
+    name = f"{name}\\n"
+elif hasattr(orbit, "name") and orbit.name:
+    name = f"{orbit.name}\\n"
+else:
+    name = ""
+
+if norad_id is None:
+    if hasattr(orbit, "norad_id"):
+        norad_id = orbit.norad_id
+    else:
+        norad_id = "99999"
+
+if cospar_id is not None:
+    y, _, i = cospar_id.partition("-")
+    cospar_id = y[2:] + i
+elif hasattr(orbit, "cospar_id"):
+    y, _, i = orbit.cospar_id.partition("-")
+    cospar_id = y[2:] + i
+else:
+    cospar_id = ""
+'''
+
+
+def check_from_orbit_head(tree):
+    """the resolution of name / norad_id / cospar_id (Model/TleOrb.lean effName, effNorad, effCospar) is modelled by hand: it must still be,
+    statement for statement, the source the model was written from"""
+    fo = _find(tree, "Tle", "from_orbit")
+    body = fo.body
+    if body and isinstance(body[0], ast.Expr) and isinstance(body[0].value, ast.Constant):
+        body = body[1:]
+    want = [ast.dump(x) for x in ast.parse(FROM_ORBIT_HEAD).body]
+    if [ast.dump(x) for x in body[:3]] != want:
+        raise RuntimeError("the resolution of name / norad_id / cospar_id at the top of Tle.from_orbit differs from the source Model/TleOrb.lean was written from")
+    if ast.dump(fo.args) != ast.dump(ast.parse("def f(cls, orbit, name=None, norad_id=None, cospar_id=None): pass").body[0].args):
+        raise RuntimeError("the signature of Tle.from_orbit differs from the modelled one")
+
+
 def extract(ctx):
     tree = ast.parse(open(TLE_PY).read())
     check_modelled_shape(tree)
@@ -1039,6 +1871,8 @@ def extract(ctx):
     cols = read_columns(tree)
     ck = read_checksum(tree)
     f1, f2 = read_writer(tree)
+    check_from_orbit_head(tree)
+    uses, date_expr, copy_expr = read_orbit_uses(tree)
     out = ["/- GENERATED by harness/props/C12.py (extract) from beyond/io/tle.py on every run: column slices of Tle.__init__,",
            "   constants of Tle._checksum / _check_validity, field layout of the two format strings of Tle.from_orbit. -/",
            "namespace BeyondVerif.Generated.Tle", "",
@@ -1057,7 +1891,13 @@ def extract(ctx):
            f"def ckLen : Nat := {ck['cklen']}",
            f"def lineLen : Nat := {ck['linelen']}",
            f"def ckPos : Nat := {ck['ckpos']}",
-           "def pivot : Nat := 57", ""]
+           "def pivot : Nat := 57", "",
+           "/-- every use of the parameter `orbit` in Tle.from_orbit, in source order (attribute names, hasattr probes, re-assignment, unpacking) -/",
+           "def orbitReads : List String := [" + ", ".join(_lean_str(u) for u in uses) + "]",
+           "/-- the expression assigned to `date` (what the year, the day of year and the day fraction are all taken from) -/",
+           f"def dateExpr : String := {_lean_str(date_expr)}",
+           "/-- the expression `orbit` is re-assigned to before its elements are read -/",
+           f"def copyExpr : String := {_lean_str(copy_expr)}", ""]
     for k, lean in LEAN_NAMES.items():
         v, a, b = cols[k]
         out.append(f"def {lean} : Nat × Nat := ({a}, {b})   -- {v}[{a}:{b}]")
@@ -1348,6 +2188,155 @@ def k_floats(out, rng, n):
             out.fail("_unfloat", "_unfloat differs from the model", {"text": t, "value": v}, observed=real, expected=unhx(m[3:]) if m.startswith("ok ") else m)
 
 
+# ---------------------------------------------------------------- off-grid orbits: the float side (Model/TleQuant.lean)
+
+# the numbers Tle.from_orbit hands to str.format / _unfloat: sub-expressions of the keyword expressions that read_writer() compares with the
+# source on every run (want1 / want2)
+NUM_EXPR = {"ndot": "orbit.ndot / 2", "ndotdot": "orbit.ndotdot / 6", "bstar": "orbit.bstar", "i": "np.degrees(i) % 360", "Ω": "np.degrees(Ω) % 360",
+            "e": "e", "ω": "np.degrees(ω) % 360", "M": "np.degrees(M) % 360", "n": "n * 86400 / (2 * np.pi)"}
+SCALES = ["UTC", "UTC", "TAI", "TT", "GPS", "TDB"]
+_EPOCH0 = None
+
+
+def us_since_year1(dt):
+    from datetime import datetime
+    d = dt - datetime(1, 1, 1)
+    return (d.days * 86400 + d.seconds) * 10**6 + d.microseconds
+
+
+def formatted_numbers(orb):
+    """evaluate, on a copy converted as the code converts it, the numeric sub-expressions of the writer -> {name: float}"""
+    import numpy as np
+    orbit = orb.copy(form="TLE", frame="TEME")
+    i, Ω, e, ω, M, n = orbit
+    ns = {"np": np, "orbit": orbit, "i": i, "Ω": Ω, "e": e, "ω": ω, "M": M, "n": n}
+    return {k: float(eval(v, ns)) for k, v in NUM_EXPR.items()}
+
+
+def q_tokens(x, signed=False):
+    import math
+    f = Fraction(abs(x)) if signed else Fraction(x)
+    t = [str(f.numerator), str(f.denominator)]
+    return (["1" if math.copysign(1.0, x) < 0 else "0"] + t) if signed else t
+
+
+def wq_line(orb):
+    """-> (request line, is_tie)"""
+    v = formatted_numbers(orb)
+    own = us_since_year1(orb.date.datetime)
+    utc = us_since_year1(orb.date.change_scale("UTC").datetime)
+    name = orb._data.get("name") or ""
+    cid = orb._data.get("cospar_id", "")
+    y, _, piece = cid.partition("-")
+    toks = ["tle.wq", hx(name), str(int(orb._data.get("norad_id", 99999))), hx(y[2:] + piece), str(own), str(own - utc)]
+    toks += q_tokens(v["ndot"], True) + q_tokens(v["ndotdot"], True) + q_tokens(v["bstar"], True) + [str(orb.element_nb)]
+    for k in ("i", "Ω", "e", "ω", "M", "n"):
+        toks += q_tokens(v[k])
+    toks.append(str(orb.revolutions))
+    return " ".join(toks), (utc % 864) == 432
+
+
+def with_scale(orb, scale):
+    """the same instant, the date labelled with another scale"""
+    if scale != "UTC":
+        orb.date = orb.date.change_scale(scale)
+    return orb
+
+
+def gen_offgrid(rng):
+    orb, inp = gen_float_orbit(rng)
+    k = rng.random()
+    if k < 0.08:
+        # the writer's domain is wider than the format's: push one number out of its columns
+        w = rng.choice(["e", "n", "ndot", "drag", "neg-angle", "neg-e"])
+        if w == "e":
+            orb[2] = rng.choice([1.0, 1.5, 0.99999996, 12.3456789])
+        elif w == "n":
+            orb[5] = rng.choice([100.0, 99.999999996, 123.456]) * 2 * 3.141592653589793 / 86400.0
+        elif w == "ndot":
+            orb.ndot = rng.choice([2.0, -2.0, 1.99999999, 20.25, -0.0, 2 * 0.999999996])
+        elif w == "drag":
+            orb.bstar = rng.choice([1e9, -1e10, 0.999996e9, 5e-324, 1e-300, -2.5e-15, 1e-11 * 0.999996, 0.99999e-10, 0.999995e-10, 3.5e-14, 0.5e-14, 1.5e-14, 2.5e-14])
+        elif w == "neg-angle":
+            orb[rng.choice([0, 1, 3, 4])] = rng.choice([-1e-20, -1e-9, -0.1, 7.0, 2 * 3.141592653589793])
+        else:
+            orb[2] = -1e-12
+    scale = rng.choice(SCALES)
+    inp = dict(inp, scale=scale)
+    return with_scale(orb, scale), inp
+
+
+def k_offgrid(out, rng, n):
+    """the float side: off-grid doubles rounded by str.format vs the exact model on their exact rational values"""
+    from beyond.io.tle import Tle, _unfloat
+    cases = [gen_offgrid(rng) for _ in range(n)]
+    reqs, ties = [], []
+    for orb, _ in cases:
+        l, tie = wq_line(orb)
+        reqs.append(l)
+        ties.append(tie)
+    replies = core.Driver().run(reqs)
+    second = []
+    for (orb, inp), m, tie, req in zip(cases, replies, ties, reqs):
+        try:
+            real = "ok " + str(Tle.from_orbit(orb))
+        except Exception as e:  # noqa
+            real = real_error_token(e)
+        mt = "ok " + "\n".join(unhx(x) for x in m.split(" ")[-1].split(",")) if m.startswith("ok ") else m
+        out.count(key=("wq", req), kind="write-offgrid", scale=inp["scale"], verdict="ok" if real.startswith("ok ") else real[:40])
+        if tie and real != mt:
+            out.tally("offgrid-day-tie-skipped")      # the exact day fraction is k + 1/2 units: the float sum of the code decides, the model rounds half-even
+            continue
+        if real != mt:
+            out.fail("write-offgrid", "Tle.from_orbit of an off-grid orbit differs from the exact rounding model", inp, observed=real, expected=mt)
+        elif real.startswith("ok "):
+            second.append((inp, real[3:]))
+    # second and third generation: parse -> write again (the model's `rewrite`)
+    k_rewrite(out, [("generation2", t) for _, t in second[: max(50, n // 4)]])
+    # _unfloat alone, on doubles of every magnitude
+    xs = []
+    for _ in range(n):
+        k = rng.random()
+        if k < 0.3:
+            x = rng.choice([-1, 1]) * rng.uniform(0.1, 1) * 10.0 ** rng.randint(-20, 12)
+        elif k < 0.5:
+            m5 = rng.randint(10000, 99999)
+            x = float("%d.5e%d" % (m5, rng.randint(-18, 6))) * rng.choice([1, 1 - 2**-52, 1 + 2**-52])      # around a tie in the fifth digit
+        elif k < 0.7:
+            x = 10.0 ** rng.randint(-16, 10) * rng.choice([1, 1 - 2**-53, 1 + 2**-52, 0.999995, 0.9999949999, 0.9999950001])
+        elif k < 0.8:
+            x = rng.choice([5e-324, 2.2250738585072014e-308, 1.7976931348623157e308, 1e-320, 1e300, 0.03125, 0.5, 2.0**-40, 3.0 * 2.0**-50])
+        else:
+            x = rng.choice([-1, 1]) * (rng.randint(0, 120000) + rng.choice([0, 0.5, 0.25, 0.75])) * 1e-14
+        xs.append(x)
+    reqs = ["tle.unflq " + " ".join(q_tokens(x, True)) for x in xs]
+    for x, m in zip(xs, core.Driver().run(reqs)):
+        real = _unfloat(x)
+        out.count(key=("unflq", x), kind="_unfloat-double")
+        want = unhx(m[3:]) if m.startswith("ok ") else m
+        if real != want:
+            out.fail("_unfloat-double", "_unfloat of a double differs from the exact rounding model", {"x": x, "hex": x.hex()}, observed=real, expected=want)
+    # the epoch alone: every scale, instants around every kind of boundary
+    reqs, want = [], []
+    from datetime import datetime, timedelta
+    from beyond.dates import Date
+    for _ in range(n):
+        y = edge_or(rng, 1957, 2056, [1957, 2056, 1999, 2000, 2001, 1972, 2016, 2017, 2024])
+        span = (datetime(y + 1, 1, 1) - datetime(y, 1, 1)).days * 86400 * 10**6
+        us = rng.choice([0, 1, 431, 433, span - 1, span - 431, span - 433, span - 864, 86400 * 10**6 - 1, 86400 * 10**6 * 59, 86400 * 10**6 * 60 - 1]) if rng.random() < 0.4 else rng.randrange(span)
+        dt = datetime(y, 1, 1) + timedelta(microseconds=us)
+        t = us_since_year1(dt)
+        if t % 864 == 432:
+            continue
+        day = int("{:%j}".format(dt)) + dt.hour / 24.0 + dt.minute / 1440 + dt.second / 86400 + dt.microsecond / 86400000000.0
+        reqs.append(f"tle.epochabs {t}")
+        want.append((t, "ok %d %d" % (int("{:%y}".format(dt)), int("{:012.8f}".format(day).replace(".", "")))))
+    for (t, w), m in zip(want, core.Driver().run(reqs)):
+        out.count(key=("epochabs", t), kind="epoch-of-datetime")
+        if m != w:
+            out.fail("epoch-of-datetime", "year / day-of-year / fraction of a datetime differ from the model (CPython ord2ymd + exact fraction)", {"us_since_0001": t}, observed=w, expected=m)
+
+
 def k_from_string(out, rng, n):
     from beyond.io.tle import Tle
     texts = []
@@ -1370,6 +2359,16 @@ def k_from_string(out, rng, n):
             else:
                 lines += [l2, l1]
         texts.append(lines)
+    # arbitrary interleavings (valid / rejected entries, name lines, blanks, comments, orphan lines, blank drag fields)
+    for _ in range(n):
+        ls, toks = gen_line_tokens(rng)
+        for t in toks:
+            out.tally("fs-token=" + t)
+        texts.append([l for l in ls if ascii_ok(l) or l == "\t"])
+    kinds = [k for k in LINE_TOKENS]
+    for a in kinds:
+        for b in kinds:
+            texts.append(token_lines(rng, a) + token_lines(rng, b) + token_lines(rng, rng.choice(["valid2", "valid3"])))
     reqs = ["tle.fs " + " ".join(hx(l) for l in ls) for ls in texts]
     for ls, m in zip(texts, core.Driver().run(reqs)):
         got = []
@@ -1444,6 +2443,8 @@ def nonstandard_cases(rng, r):
 
 
 def correspondence(ctx):
+    from harness import env
+    env.use_real_eop()        # TAI-UTC, TT-UTC, GPS-UTC, TDB-UTC differ from zero: the scale label of an orbit's date matters
     out = Outcome()
     rng = ctx.rng
     recs = [gen_rec(rng) for _ in range(ctx.n(400, 6000))]
@@ -1471,4 +2472,6 @@ def correspondence(ctx):
     k_write(out, wr)
     k_floats(out, rng, ctx.n(1500, 30000))
     k_from_string(out, rng, ctx.n(300, 5000))
+    k_history(out, rng, ctx.n(500, 8000))
+    k_offgrid(out, rng, ctx.n(1500, 30000))
     return out
